@@ -858,6 +858,11 @@ func directCase(r *core.Run, cid string, i int) {
 	case "relayers-packets":
 		g.relayers(k(2, 6))
 		g.packets(k(8, 30), true)
+		if rng.Intn(3) == 0 {
+			// many entries per kind (several hundred): export must not stop after a page
+			g.packets(300+rng.Intn(200), false)
+			g.in.feat("packet-state-hundreds-of-entries")
+		}
 	case "registry-params":
 		g.registry(k(2, 8))
 		g.aggParams()
